@@ -151,6 +151,8 @@ struct Scn {
         log("ret t" + std::to_string(tid) + " " + (r ? "1" : "0"));
     }
 
+    bool assign_end = false;   // the controller overwrites the promise by move-assignment instead of destroying it
+
     void run(const std::vector<std::vector<std::string>> &threads, const std::vector<int> &sched, bool destroy_promise) {
         fut.emplace();
         prom.emplace(fut->get_promise());
@@ -185,6 +187,8 @@ struct Scn {
             _exit(0);
         }
         if (destroy_promise) {
+            // move-assignment over a promise that may still own the future must drop that future first
+            if (assign_end && prom) *prom = promise<T>();
             prom.reset();
             log("promise-destroyed");
         }
@@ -204,17 +208,19 @@ static void run_case(const std::vector<std::string> &hdr, const std::vector<std:
     std::vector<std::vector<std::string>> threads;
     std::vector<int> sched;
     bool destroy = true;
+    bool assign_end = false;
     for (auto &w : lines) {
+        if (w[0] == "assign-end") assign_end = true;
         if (w[0] == "r" || w[0] == "w" || w[0] == "d") threads.push_back(w);
         else if (w[0] == "sched") for (std::size_t i = 1; i < w.size(); i++) sched.push_back(atoi(w[i].c_str()));
         else if (w[0] == "keep-promise") destroy = false;
     }
     std::string T = hdr.size() > 3 ? hdr[3] : "int";
-    if (T == "int") { Scn<int> s; s.run(threads, sched, destroy); }
-    else if (T == "void") { Scn<void> s; s.run(threads, sched, destroy); }
-    else if (T == "uptr") { Scn<std::unique_ptr<int>> s; s.run(threads, sched, destroy); }
-    else if (T == "ref") { Scn<int &> s; s.run(threads, sched, destroy); }
-    else if (T == "counted") { Scn<counted> s; s.run(threads, sched, destroy); }
+    if (T == "int") { Scn<int> s; s.assign_end = assign_end; s.run(threads, sched, destroy); }
+    else if (T == "void") { Scn<void> s; s.assign_end = assign_end; s.run(threads, sched, destroy); }
+    else if (T == "uptr") { Scn<std::unique_ptr<int>> s; s.assign_end = assign_end; s.run(threads, sched, destroy); }
+    else if (T == "ref") { Scn<int &> s; s.assign_end = assign_end; s.run(threads, sched, destroy); }
+    else if (T == "counted") { Scn<counted> s; s.assign_end = assign_end; s.run(threads, sched, destroy); }
     S().log_line("end");
 }
 
